@@ -609,6 +609,27 @@ func (e *Engine) quantifier(fr *frame, kind string, args []Val, heap Heap) Val {
 	if !ok {
 		fail("%s needs a function literal", kind)
 	}
+	if l, ok := e.sc.lit(lo); ok {
+		if h, ok := e.sc.lit(hi); ok {
+			lv, _, _ := bvLitVal(l)
+			hv, _, _ := bvLitVal(h)
+			if int64(hv)-int64(lv) <= 32 && int64(hv)-int64(lv) >= 0 {
+				// a small constant range: the quantifier is a finite conjunction / disjunction
+				var parts []string
+				savePure := e.pure
+				e.pure = true
+				for x := int64(lv); x < int64(hv); x++ {
+					r := e.execFunction(fv.Fn, []Val{Sc{bvLit(uint64(x), 64), SI64}}, fv.Bind, "true", heap.clone())
+					parts = append(parts, e.scalar(r.ret).T)
+				}
+				e.pure = savePure
+				if kind == "forall" {
+					return Sc{e.sc.define("qc", SBool, and(parts...)), SBool}
+				}
+				return Sc{e.sc.define("qc", SBool, or(parts...)), SBool}
+			}
+		}
+	}
 	k := e.sc.freshName("k")
 	e.sc.binders = append(e.sc.binders, binder{k, SI64})
 	savePure := e.pure
@@ -763,7 +784,6 @@ func (e *Engine) builtin(fr *frame, ins ssa.Instruction, b *ssa.Builtin, cc *ssa
 			t := cc.Args[0].Type()
 			if isStringT(t) {
 				l := e.sc.define("slen", SI64, app("gs_len", x.T))
-				e.sc.assume(and(app("bvsge", l, bvLit(0, 64)), app("bvslt", l, bvLit(1<<40, 64))))
 				return Sc{l, SI64}
 			}
 			if mt, ok := under(t).(*types.Map); ok {
@@ -969,6 +989,18 @@ func (e *Engine) copyOp(fr *frame, cc *ssa.CallCommon, args []Val, heap Heap) Va
 			for j := 0; j < cnt; j++ {
 				jj := bvLit(uint64(j), 64)
 				t = sto(t, app("bvadd", d.Off, jj), sel(src, app("bvadd", sOff, jj)))
+			}
+			heap[c.key] = e.sc.define("H_"+c.key, c.sort, sto(cur, d.Arr, ite(e.guard, t, old)))
+			e.dirty[c.key] = true
+			return
+		}
+		if dl, ok := e.smallConst(d.Len); ok && dl <= 32 {
+			// a short destination: at most dl elements change, each conditionally
+			t := old
+			for j := 0; j < dl; j++ {
+				jj := bvLit(uint64(j), 64)
+				di := e.sc.addS(d.Off, jj)
+				t = sto(t, di, ite(app("bvslt", jj, n), sel(src, e.sc.addS(sOff, jj)), sel(old, di)))
 			}
 			heap[c.key] = e.sc.define("H_"+c.key, c.sort, sto(cur, d.Arr, ite(e.guard, t, old)))
 			e.dirty[c.key] = true
